@@ -84,6 +84,9 @@ func c04MatcherClass(http bool, h c04Hdr, detail bool) string {
 // (number, order, special names) - never concrete values.
 func c04RuleClass(r c04Rule) string {
 	s := r.Kind
+	if r.Kind == "dsl" {
+		return c04DslRuleClass(r)
+	}
 	if len(r.Headers) == 0 {
 		return s
 	}
